@@ -17,12 +17,16 @@ use std::time::Duration;
 use vhost::vhost_user::message::VhostUserHeaderFlag;
 use vhost::vhost_user::{BackendReqHandler, Error, Frontend, VhostUserBackendReqHandler};
 
+/// kernel thread id of the server thread of the current case (for `all_blocked`)
+pub static SRV_TID: std::sync::atomic::AtomicI32 = std::sync::atomic::AtomicI32::new(0);
+
 fn serve_loop<S: VhostUserBackendReqHandler>(
     mut h: BackendReqHandler<S>,
     stop: Arc<AtomicBool>,
     served: Arc<AtomicU64>,
     errs: Arc<Mutex<Vec<String>>>,
 ) {
+    SRV_TID.store(gettid(), Ordering::SeqCst);
     loop {
         let r = std::panic::catch_unwind(std::panic::AssertUnwindSafe(|| h.handle_request()));
         served.fetch_add(1, Ordering::SeqCst);
@@ -141,13 +145,20 @@ pub fn run(cases: &[Value], trace: &mut Trace, seed: u64) {
             let mut fe2 = fe.clone();
             let (op2, cls2) = (op.clone(), cls.clone());
             let mut rng2 = Rng::new(rng.next());
+            let call_tid = Arc::new(std::sync::atomic::AtomicI32::new(0));
+            let ct2 = call_tid.clone();
             let t = std::thread::spawn(move || {
+                ct2.store(gettid(), Ordering::SeqCst);
                 let r = std::panic::catch_unwind(std::panic::AssertUnwindSafe(|| call_op(&mut fe2, &op2, &cls2, v, &mut rng2)));
                 let _ = tx.send(r.ok());
             });
-            let (out, hang) = match rx.recv_timeout(Duration::from_millis(2000)) {
-                Ok(o) => (o, false),
-                Err(_) => {
+            // "the call never returns" is only concluded once the caller and the server are both seen asleep in a blocking
+            // system call with nothing left to read on either socket -- on a loaded machine the wait just gets longer
+            let tids = || vec![call_tid.load(Ordering::SeqCst), SRV_TID.load(Ordering::SeqCst)];
+            let socks = [std::os::unix::io::AsRawFd::as_raw_fd(&fdup), std::os::unix::io::AsRawFd::as_raw_fd(&bdup)];
+            let (out, hang) = match recv_or_blocked(&rx, Duration::from_millis(2000), Duration::from_secs(120), &tids, &socks) {
+                Some(o) => (o, false),
+                None => {
                     // the call is stuck: was the server still serving? record, then cut the connection
                     let _ = fdup.shutdown(std::net::Shutdown::Both);
                     (rx.recv_timeout(Duration::from_millis(5000)).ok().flatten(), true)
@@ -164,7 +175,9 @@ pub fn run(cases: &[Value], trace: &mut Trace, seed: u64) {
             if !hang && sent > 0 {
                 let t0 = std::time::Instant::now();
                 while served.load(Ordering::SeqCst) < served0 + sent {
-                    if t0.elapsed() > Duration::from_millis(2000) {
+                    if t0.elapsed() > Duration::from_millis(2000)
+                        && hang_confirmed(t0, &[SRV_TID.load(Ordering::SeqCst)], &[std::os::unix::io::AsRawFd::as_raw_fd(&bdup)])
+                    {
                         server_stuck = true;
                         break;
                     }
@@ -200,6 +213,7 @@ pub fn run(cases: &[Value], trace: &mut Trace, seed: u64) {
             }
         }
         stop.store(true, Ordering::SeqCst);
+        storm_release();
         drop(bdup);
         drop(fe);
         let _ = fdup.shutdown(std::net::Shutdown::Both);
